@@ -11,6 +11,9 @@
     * `resolve_exact`, `resolve_suffix`, `resolve_none`, `resolve_most_specific`
                                    : host-to-realm resolution returns the exact host mapping if there is
                                      one, else the mapping of the longest matching domain suffix, else ""
+    * `parseRealms_total`, `v0_one_line_block_panics`
+                                   : splitting the [realms] section into realm blocks never panics (the
+                                     unrepaired code did on `REALM = { }`)
   Whole-file parsing (sections, comments, whitespace, booleans, durations, enctype lists) is covered by the
   correspondence run with rendered configurations; it is not proved at the string level.
 -/
@@ -191,6 +194,107 @@ theorem resolve_most_specific (m : Mapping) (host : List Str) (pre : List (List 
     rw [List.pairwise_append] at hsorted
     have := (List.pairwise_cons.mp hsorted.2.1).1 s h
     omega
+
+/-! ### the [realms] section splitter -/
+
+theorem closeBlock_total (s : OSt) (b : List OLine) : (closeBlock s b).isPanic = false := by
+  unfold closeBlock
+  have := nested_total {} (b.map (·.inner))
+  split
+  · rfl
+  · rfl
+  · rename_i w h; rw [h] at this; simp [Outcome.isPanic] at this
+
+theorem sliceLines_ok (all : List OLine) (i j : Nat) (h1 : i ≤ j) (h2 : j ≤ all.length) :
+    ∃ b, sliceLines all i j = .ok b := by
+  unfold sliceLines
+  have a1 : ¬ (j > all.length) := by omega
+  have a2 : ¬ (i > j) := by omega
+  rw [if_neg a1, if_neg a2]
+  exact ⟨_, rfl⟩
+
+/-- one iteration of the repaired loop at an index inside the section never panics -/
+theorem outerStep_total (all : List OLine) (s : OSt) (i : Nat) (l : OLine) (hi : i ≤ all.length) :
+    (outerStep true all s i l).isPanic = false := by
+  unfold outerStep
+  by_cases hb : l.blank = true
+  · rw [if_pos hb]; rfl
+  · rw [if_neg hb]
+    -- the opening half
+    have hopen : ∀ o : Outcome OSt, (∀ s1, o = .ok s1 →
+        (if l.hasClose = true then
+          if s1.c < 1 then (Outcome.err "not-started" : Outcome OSt)
+          else if ({ s1 with c := s1.c - 1 } : OSt).c = 0 then
+            match (if (true && !(decide (i > ({ s1 with c := s1.c - 1 } : OSt).start))) = true then Outcome.ok []
+                   else sliceLines all (({ s1 with c := s1.c - 1 } : OSt).start + 1) i) with
+            | .ok b => closeBlock { s1 with c := s1.c - 1 } b
+            | .err e => .err e
+            | .crash w => .crash w
+          else .ok { s1 with c := s1.c - 1 }
+        else .ok s1).isPanic = false) := by
+      intro o s1 _
+      by_cases hc : l.hasClose = true
+      · rw [if_pos hc]
+        by_cases h1 : s1.c < 1
+        · rw [if_pos h1]; rfl
+        · rw [if_neg h1]
+          by_cases h0 : ({ s1 with c := s1.c - 1 } : OSt).c = 0
+          · rw [if_pos h0]
+            by_cases hg : i > s1.start
+            · have : (true && !(decide (i > ({ s1 with c := s1.c - 1 } : OSt).start))) = false := by simp [hg]
+              rw [this]
+              obtain ⟨b, hb'⟩ := sliceLines_ok all (s1.start + 1) i (by omega) hi
+              simp only [Bool.false_eq_true, if_false]
+              rw [hb']
+              exact closeBlock_total _ _
+            · have : (true && !(decide (i > ({ s1 with c := s1.c - 1 } : OSt).start))) = true := by simp [hg]
+              rw [this]
+              simp only [if_true]
+              exact closeBlock_total _ _
+          · rw [if_neg h0]; rfl
+      · rw [if_neg hc]; rfl
+    by_cases ho : l.hasOpen = true
+    · rw [if_pos ho]
+      by_cases he : (!l.hasEq) = true
+      · rw [if_pos he]; rfl
+      · rw [if_neg he]
+        by_cases h1 : s.c + 1 = 1
+        · rw [if_pos h1]; exact hopen _ _ rfl
+        · rw [if_neg h1]; exact hopen _ _ rfl
+    · rw [if_neg ho]; exact hopen _ _ rfl
+
+theorem outerLoop_total (all : List OLine) (s : OSt) (i : Nat) (ls : List OLine) (h : i + ls.length ≤ all.length) :
+    (outerLoop true all s i ls).isPanic = false := by
+  induction ls generalizing s i with
+  | nil => rfl
+  | cons l ls ih =>
+    simp only [outerLoop]
+    have hs := outerStep_total all s i l (by simp at h; omega)
+    split
+    · exact ih _ _ (by simp at h; omega)
+    · rfl
+    · rename_i w hw; rw [hw] at hs; simp [Outcome.isPanic] at hs
+
+/-- **parseRealms_total.** splitting the [realms] section into blocks never panics, whatever the lines:
+    blocks that open and close on one line, stray brackets, nesting -/
+theorem parseRealms_total (lines : List OLine) : (parseRealms true lines).isPanic = false := by
+  unfold parseRealms
+  have := outerLoop_total lines {} 0 lines (by omega)
+  split
+  · split <;> rfl
+  · rfl
+  · rename_i w hw; rw [hw] at this; simp [Outcome.isPanic] at this
+
+/-- a line that opens and closes a block: `REALM = { }` -/
+def oneLineBlock : OLine :=
+  { hasOpen := true, hasEq := true, hasClose := true, name := ['R'],
+    inner := { hasEq := true, hasOpen := true, hasClose := true, hasV4 := false } }
+
+/-- **v0_one_line_block_panics.** the unrepaired splitter sliced `lines[start+1:i]` with i = start -/
+theorem v0_one_line_block_panics : (parseRealms false [oneLineBlock]).isPanic = true := by decide
+
+/-- the repaired splitter reports an empty realm of that name -/
+example : parseRealms true [oneLineBlock] = .ok ([(['R'], {})], false) := by decide
 
 /-! non-vacuity -/
 example : resolve [(.dom [['e'], ['c']], ['X']), (.dom [['b'], ['e'], ['c']], ['B']),
